@@ -50,6 +50,7 @@ def check(run):
             run.undecided('R12.port', (urel, 'pauli_tokenize'), 'tokens', str(e))
             tl, tp = {}, {}
         rd = RW.reader_table(repo.func(prel, 'pauli'))
+        rd = {k: tuple(sorted((e for e in v if e != ('skip',)), key=repr)) for k, v in (rd or {}).items()} or rd    # what a token does, not how the chain is laid out
         rm = {q: {k: v for k, v in RW.rmul_table(repo.func(prel, q + '.__rmul__')).items() if k != 2.5} for q in ('Pauli', 'PauliList')}
         qt = {q: RW.qutip_letters(repo.func(prel, q + '.to_qutip')) for q in ('Pauli', 'PauliList', 'PauliPolynomial')}
         tabs[pkg] = {'phase prefixes': pref, 'letters': letters, 'letter tokens': tl, 'phase tokens': tp, 'reader table': rd,
